@@ -9,10 +9,12 @@ FUNCTIONS = ["sigpy.linop.Linop.N / _normal_linop of every class (default H*self
              "Transpose, FFT, IFFT, Circshift, ArrayToBlocks, BlocksToArray)", "NUFFT._normal_linop(toeplitz=False)"]
 BOUNDS = {"quick": "quick leaf catalogue + rule core + 60 seeded depth-2 trees", "thorough": "full leaf catalogue (all block stride regimes: "
           "overlapping, tiling, gapped, non-dividing for n in {4,5}, b in 1..3, s in 1..4) + exhaustive depth-2 + 300 seeded depth-3 trees"}
-OUTSIDE = ["NUFFT(toeplitz=True): an approximation claim between float matrices with a transcendental kernel (not an SMT question, see C06)",
-           "Wavelet"]
+OUTSIDE = ["NUFFT(toeplitz=True) beyond the listed shapes / (oversamp, width) in {(1.25, 4), (2, 4)}; its bound is a stated tolerance "
+           "(6% / 1% of ||A^H A||_inf, measured <= 1.6% / 0.2%), decided for all x in the unit box", "Wavelet"]
 ASSUMPTIONS = ["x and every operator parameter are arbitrary complex (symbolic)"]
-EXPLANATION = "C04: A.N(x) = A.H(A(x)) for all x and all parameter values, with .N taken before and after .H."
+EXPLANATION = ("C04: A.N(x) = A.H(A(x)) for all x and all parameter values, with .N taken before and after .H.  Toeplitz-embedded NUFFT normal "
+               "operator: the two concrete float matrices (extracted from the real code by linearity) differ by at most the stated fraction of "
+               "||A^H A||_inf on every x of the unit box (z3, linear arithmetic).")
 
 
 def h_normal(cfg, V):
@@ -30,7 +32,53 @@ def h_normal(cfg, V):
     return obl
 
 
-HARNESSES = {"normal": h_normal}
+TOEP_TOL = {(1.25, 4): 0.06, (2, 4): 0.01}     # measured on the pinned tree: <= 0.016 and <= 0.002 (inf-norm ratio)
+
+
+def h_toeplitz(cfg, V):
+    """NUFFT(toeplitz=True).N vs A.H A: both are concrete float matrices (extracted from the real code by applying it to the basis vectors;
+    linearity is C02); z3 decides  |((T - G) x)_i| <= tol * ||G||_inf  for ALL x in the unit box (linear real arithmetic)."""
+    import numpy as np
+    import sigpy as sp
+    from fractions import Fraction
+    from symsig import scalar as S
+    ishape, coord = cfg["ishape"], np.array(cfg["coord"], dtype=np.float64)
+    osf, width = cfg["oversamp"], cfg["width"]
+    A = sp.linop.NUFFT(ishape, coord, osf, width, toeplitz=True)
+    Bop = sp.linop.NUFFT(ishape, coord, osf, width, toeplitz=False)
+    n = int(np.prod(ishape))
+    G = np.zeros((n, n), dtype=np.complex128)
+    T = np.zeros((n, n), dtype=np.complex128)
+    N = A.N
+    for j in range(n):
+        e = np.zeros(n, dtype=np.complex128)
+        e[j] = 1
+        e = e.reshape(ishape)
+        G[:, j] = np.ravel(Bop.H(Bop(e)))
+        T[:, j] = np.ravel(N(e))
+    scale = float(np.abs(G).sum(axis=1).max())
+    tol = TOEP_TOL[(osf, width)] * scale
+    x = V.array("x", ishape)
+    V.box(1)
+    D = T - G
+    obl = [("toeplitz_normal_shape", O.const(list(N.ishape) == list(ishape) and list(N.oshape) == list(ishape))),
+           ("toeplitz_operator_is_nontrivial", O.const(scale > 1e-6))]
+    xf = np.ravel(x)
+    if V.symbolic:
+        Dl = S.lift_array(D)
+        for i in range(n):
+            acc = S.SymK.lift(0)
+            for j in range(n):
+                acc = acc + Dl[i, j] * xf[j]
+            obl.append(("toeplitz_normal_close_to_AHA_row%d" % i, O.near(acc, 0, Fraction(tol) / 2)))   # per component: |re|, |im| <= tol/2
+    else:
+        r = D @ xf
+        for i in range(n):
+            obl.append(("toeplitz_normal_close_to_AHA_row%d" % i, O.const(abs(r[i].real) <= tol / 2 and abs(r[i].imag) <= tol / 2)))
+    return obl
+
+
+HARNESSES = {"normal": h_normal, "toeplitz": h_toeplitz}
 
 
 def configs(tier, seed):
@@ -39,4 +87,14 @@ def configs(tier, seed):
         out.append({"id": "leaf:" + C.sid(spec), "h": "normal", "spec": spec, "field": C.field_for(spec)})
     for spec in trees.tree_specs(tier, seed):
         out.append({"id": "tree:" + C.sid(spec), "h": "normal", "spec": spec, "field": C.field_for(spec)})
+    import numpy as np
+    rng = np.random.default_rng(20260704)
+    shapes = [[4], [5], [2, 3], [3, 2], [3, 4]] + ([[4, 4], [2, 6], [6, 2], [2, 3, 4], [3, 5]] if tier == "thorough" else [])
+    for sh in shapes:
+        nd = len(sh)
+        for k, npts in enumerate((3, 7) if tier == "thorough" else (4,)):
+            coord = ((rng.random((npts, nd)) - 0.5) * np.array(sh) * 1.2).round(3).tolist()
+            for osf, w in ((1.25, 4), (2, 4)):
+                out.append({"id": "toeplitz:%s:pts=%d:os=%s:w=%s" % (sh, npts, osf, w), "h": "toeplitz", "ishape": sh, "coord": coord,
+                            "oversamp": osf, "width": w, "field": 4})
     return _dedup(out)
